@@ -116,30 +116,21 @@ static const char* type_class(type_t t)
 struct Scopes
 {
     Document* doc;
+    // The frame a symbol was declared in, found by searching the frames the document keeps alive: symbol_t::get_frame()
+    // must not be used here, a symbol bound by a quantifier or declared in a block points to a frame that may be gone.
+    static bool has(frame_t f, const symbol_t& s) { return !(f == frame_t()) && f.get_index_of(s).has_value(); }
     std::string frame_name(symbol_t s)
     {
-        frame_t f = s.get_frame();
-        if (f == frame_t()) return "noframe";
-        if (f == doc->get_globals().frame) return "global";
+        if (has(doc->get_globals().frame, s)) return "global";
         int ti = 0;
         for (auto& t : doc->get_templates()) {
-            if (f == t.frame) return "tmpl" + std::to_string(ti) + ".local";
-            if (f == t.parameters) return "tmpl" + std::to_string(ti) + ".param";
+            if (has(t.parameters, s)) return "tmpl" + std::to_string(ti) + ".param";
+            if (has(t.frame, s)) return "tmpl" + std::to_string(ti) + ".local";
             int ei = 0;
-            for (auto& e : t.edges) { if (f == e.select) return "tmpl" + std::to_string(ti) + ".edge" + std::to_string(ei) + ".select"; ++ei; }
+            for (auto& e : t.edges) { if (has(e.select, s)) return "tmpl" + std::to_string(ti) + ".edge" + std::to_string(ei) + ".select"; ++ei; }
             ++ti;
         }
-        // some nested frame: count the depth to a known frame
-        int depth = 0;
-        frame_t g = f;
-        while (g.has_parent() && depth < 64) {
-            g = g.get_parent();
-            ++depth;
-            if (g == doc->get_globals().frame) return "nested" + std::to_string(depth) + "<global";
-            int tj = 0;
-            for (auto& t : doc->get_templates()) { if (g == t.frame) return "nested" + std::to_string(depth) + "<tmpl" + std::to_string(tj); ++tj; }
-        }
-        return "nested" + std::to_string(depth);
+        return "inner";
     }
 };
 static Scopes scopes;
@@ -233,6 +224,9 @@ static void dump_decls(const char* pfx, declarations_t& d, bool skip_builtin)
         for (auto& s : b) dp += s + ",";
         printf("%s fun %d %s : %s changes={%s} depends={%s} locals=%zu\n", pfx, i++, f.uid.get_name().c_str(), esc(safe_type_str(f.uid.get_type())).c_str(),
                ch.c_str(), dp.c_str(), f.variables.size());
+        if (opt_bind)   // C07: the initialisers of function-local variables show what a use inside a body is bound to
+            for (auto& v : f.variables)
+                printf("%s funlocal %s %s : %s = %s\n", pfx, f.uid.get_name().c_str(), v.uid.get_name().c_str(), esc(safe_type_str(v.uid.get_type())).c_str(), expr_s(v.init).c_str());
     }
     // typedefs and other frame entries
     if (!(d.frame == frame_t())) {
